@@ -565,6 +565,11 @@ fn c10_binary(ctx: &mut Ctx) {
             pairs.push(("One::one", g(<TwoFloat as One>::one), g(|| TwoFloat::from(1.0))));
             let iz = Zero::is_zero(&x);
             check!(ctx, iz == (x == TwoFloat::from(0.0)), "Zero::is_zero({}) = {}", a.show(), iz);
+            // One::is_one (a provided method): the operator it stands for is `== 1`
+            let io = One::is_one(&x);
+            check!(ctx, io == (x == TwoFloat::from(1.0)), "One::is_one({}) = {} but (x == 1) = {}", a.show(), io, x == TwoFloat::from(1.0));
+            // Float::copysign is a PROVIDED method of num_traits: it still is an entry point with an inherent counterpart
+            pairs.push(("Float::copysign", g(|| F::copysign(x, y)), g(|| inh::copysign(x, y))));
             pairs.push(("FloatCore::epsilon", g(<TwoFloat as FC>::epsilon), g(|| TwoFloat::EPSILON)));
             pairs.push(("Float::epsilon", g(<TwoFloat as F>::epsilon), g(|| TwoFloat::EPSILON)));
             pairs.push(("Float::infinity", g(<TwoFloat as F>::infinity), g(|| TwoFloat::INFINITY)));
